@@ -59,7 +59,7 @@ func applyNetPolicies(ctx context.Context, kc kubernetes.Interface, b *netPolBui
 			metricsutils.IncCounterVecWithLabelValues(kubeCallsCounter, "networking-policies-create", err)
 		}
 		if err != nil {
-			break
+			return err
 		}
 	}
 
